@@ -1855,10 +1855,18 @@ export class AnyOfDiscriminatedRuntype extends BaseRuntype {
   }
   private getSchemaVariantRefs(ctx: SchemaContext): Array<{ key: string; ref: string }> {
     const unionHash = this.hash({ seen: {} });
-    return Object.entries(this.schemaMapping).map(([key, schema]) => ({
-      key,
-      ref: this.ensureSchemaVariantRef(schema, key, unionHash, ctx),
-    }));
+    // tags that differ only in case or punctuation ("a" / "A", "x-y" / "x y") sanitize to the same
+    // component name: later ones get a numeric suffix so that every variant keeps its own definition
+    const taken = new Map<string, number>();
+    return Object.entries(this.schemaMapping).map(([key, schema]) => {
+      const base = AnyOfDiscriminatedRuntype.getSyntheticRefName(this.discriminator, key, unionHash);
+      const n = taken.get(base) ?? 0;
+      taken.set(base, n + 1);
+      return {
+        key,
+        ref: this.ensureSchemaVariantRef(schema, n === 0 ? base : `${base}_${n}`, ctx),
+      };
+    });
   }
 
   private getPrintingContext(ctx: SchemaContext): SchemaPrintingContext {
@@ -1908,12 +1916,7 @@ export class AnyOfDiscriminatedRuntype extends BaseRuntype {
     printingContext.storeDefinition(name, body);
   }
 
-  private ensureSchemaVariantRef(
-    runtype: Runtype,
-    key: string,
-    unionHash: number,
-    ctx: SchemaContext,
-  ): string {
+  private ensureSchemaVariantRef(runtype: Runtype, syntheticRefName: string, ctx: SchemaContext): string {
     const printingContext = this.getPrintingContext(ctx);
     const refTarget = this.getRefTarget(runtype);
     if (refTarget != null) {
@@ -1921,11 +1924,6 @@ export class AnyOfDiscriminatedRuntype extends BaseRuntype {
       return printingContext.getRef(refTarget.name);
     }
 
-    const syntheticRefName = AnyOfDiscriminatedRuntype.getSyntheticRefName(
-      this.discriminator,
-      key,
-      unionHash,
-    );
     this.ensureContextualDefinition(syntheticRefName, runtype, ctx);
     return printingContext.getRef(syntheticRefName);
   }
